@@ -428,6 +428,30 @@ def add_same_name_shapes(root: File, rng: random.Random, ext_ok: bool = True) ->
     root.add(both)
 
 
+def add_empty_shapes(root: File, rng: random.Random, ext_ok: bool = True) -> None:
+    """Definitions without content in every position: empty messages (plain and extensible - 0 and 16 bits) as fields, array elements and
+    the only content of other messages, two levels deep, with data after each of them."""
+    tag = "".join(rng.choice("abcdefghijklmnopqrstuvwxyz") for _ in range(4)).capitalize()
+    e = root.add(Message("Void" + tag))
+    x = root.add(Message("Hollow" + tag, ext=True)) if ext_ok else None
+    only = Message("Onlyvoid" + tag)
+    only.add(Field("v_one", Ref(e), 1))
+    only.add(Field("v_many", Arr(Ref(e), rng.choice([1, 3, 8])), 2))
+    root.add(only)
+    h = Message("Holder" + tag, ext=ext_ok and rng.random() < 0.3)
+    n = 0
+    for t in [Base("uint", rng.choice([3, 8])), Ref(e), Arr(Ref(e), 3), Ref(only), Base("bool")] + \
+             ([Ref(x), Arr(Ref(x), 2, ext=rng.random() < 0.5), Base("uint", 5)] if x is not None else []) + [Arr(Ref(only), 2), Base("int", 7)]:
+        n += 1
+        h.add(Field(f"h{'abcdefghijkl'[n]}_v", t, n * 3))
+    root.add(h)
+    o = Message("Outer" + tag)
+    o.add(Field("first", Ref(h), 1))
+    o.add(Field("rows", Arr(Ref(h), 2), 2))
+    o.add(Field("last", Base("uint", 4), 3))
+    root.add(o)
+
+
 def flat_name(d: Any) -> str:
     return "".join(qualified_path(d))
 
